@@ -47,8 +47,9 @@ func verifC08Seed() int64 {
 
 // verifC08Base is one valid stream produced by the package's own encoder.
 type verifC08Base struct {
-	name string
-	data []byte
+	name  string
+	data  []byte
+	light bool // quick tier: only unchanged / truncation / segment mutations, no byte and word substitution
 }
 
 // verifC08Case is one input handed to a decoder plus the recipe that produced it.
@@ -114,6 +115,9 @@ func verifC08Enumerate(bases, prefixes []verifC08Base, markers []byte, segs func
 		}
 	}
 	for _, b := range bases {
+		if b.light && tier != "thorough" {
+			continue
+		}
 		n := len(b.data)
 		lim := nByte
 		if lim > n {
@@ -146,6 +150,9 @@ func verifC08Enumerate(bases, prefixes []verifC08Base, markers []byte, segs func
 		}
 	}
 	for _, b := range bases {
+		if b.light && tier != "thorough" {
+			continue
+		}
 		n := len(b.data)
 		lim := nWord
 		if lim > n-1 {
@@ -766,7 +773,7 @@ func verifC08SIZSpecials(bases []verifC08Base) []verifC08Case {
 // verifC08CODSpecials: every value of the COD / QCD parameter bytes of valid streams (quick tier: except the
 // high byte of the COD layer count, whose boundary values the generic byte substitution already covers and
 // whose large values cost seconds per case).
-func verifC08CODSpecials(bases []verifC08Base, tier string) []verifC08Case {
+func verifC08CODSpecials(bases []verifC08Base, tier string, step int) []verifC08Case {
 	var out []verifC08Case
 	for _, b := range bases {
 		for _, m := range []byte{0x52, 0x5C} {
@@ -779,7 +786,7 @@ func verifC08CODSpecials(bases []verifC08Base, tier string) []verifC08Case {
 				if m == 0x52 && o == p+6 && tier != "thorough" {
 					continue
 				}
-				for v := 0; v < 256; v++ {
+				for v := 0; v < 256; v += step {
 					if int(b.data[o]) == v {
 						continue
 					}
@@ -829,7 +836,7 @@ func verifC08J2KDomain(tier string, nb int, extra string, layerFilter bool) stri
 		n, w, r = 1500, 1500, 6000
 		vals = "all 256 values"
 	}
-	return fmt.Sprintf("tier=%s seed=%d; %d valid codestreams (%s); each: unchanged, every truncation (streams > 4 KiB: first 1024 offsets then stride), byte substitution at first %d bytes x %s, 16-bit big-endian substitution {0,1,0x7fff,0x8000,0xffff} at first %d offsets, marker-segment drop/dup/swap/move-first (main header, SOT, first tile-part header); %d seeded random strings per start prefix (SOC; SOC+valid SIZ; valid header through first SOD); handcrafted SIZ field grids (32-bit extents incl. Xsiz<XOsiz and 2^32-1, tile sizes 0/1, Csiz, Ssiz/XRsiz/YRsiz) and all 256 values of every COD and QCD byte on selected streams;%s inputs whose independently parsed SIZ (any FF51 position) declares (Xsiz-XOsiz)*(Ysiz-YOsiz)*Csiz > 2^22 (wrapping int64) are skipped",
+	return fmt.Sprintf("tier=%s seed=%d; %d valid codestreams (%s); each: unchanged, every truncation (streams > 4 KiB: first 1024 offsets then stride), byte substitution at first %d bytes x %s, 16-bit big-endian substitution {0,1,0x7fff,0x8000,0xffff} at first %d offsets, marker-segment drop/dup/swap/move-first (main header, SOT, first tile-part header); %d seeded random strings per start prefix (SOC; SOC+valid SIZ; valid header through first SOD); handcrafted SIZ field grids (32-bit extents incl. Xsiz<XOsiz and 2^32-1, tile sizes 0/1, Csiz, Ssiz/XRsiz/YRsiz) and all 256 values (quick tier of the decoder packages: every 3rd value) of every COD and QCD byte on selected streams;%s inputs whose independently parsed SIZ (any FF51 position) declares (Xsiz-XOsiz)*(Ysiz-YOsiz)*Csiz > 2^22 (wrapping int64) are skipped",
 		tier, verifC08Seed(), nb, extra, n, vals, w, r, lf)
 }
 
@@ -1097,9 +1104,20 @@ func verifC08Setup(t *testing.T) (decs []verifC08Decoder, enumerate func(fn func
 		prefixes = append(prefixes, verifC08Base{name: "prefix=header-through-SOD of " + bases[i].name, data: verifC08ThroughSOD(bases[i].data)})
 	}
 	tier, seed := verifC08Tier(), verifC08Seed()
-	specials := append(verifC08SIZSpecials([]verifC08Base{bases[1], bases[3]}), verifC08CODSpecials([]verifC08Base{bases[1]}, tier)...)
+	step := 1
+	if tier != "thorough" {
+		step = 3
+		// one HT code-block costs ~0.7 ms in NewVLCDecoder.buildLookupTables, a valid 8x8x3 stream ~11 ms:
+		// the quick tier substitutes bytes/words only in the three cheapest streams
+		for i := range bases {
+			bases[i].light = !(i == 0 || i == 1 || i == 7)
+		}
+	}
+	specials := append(verifC08SIZSpecials([]verifC08Base{bases[1], bases[7]}), verifC08CODSpecials([]verifC08Base{bases[1]}, tier, step)...)
 	specials = append(specials, verifC08BudgetSpecials(bases[1], 0xffff)...)
-	specials = append(specials, verifC08BudgetSpecials(bases[5], 256)...)
+	if tier == "thorough" {
+		specials = append(specials, verifC08BudgetSpecials(bases[5], 256)...)
+	}
 	// CAP / other HT-specific main header segments: all 256 values of every byte
 	for _, s := range verifC08Segments(bases[1].data) {
 		m := bases[1].data[s[0]+1]
@@ -1107,7 +1125,7 @@ func verifC08Setup(t *testing.T) (decs []verifC08Decoder, enumerate func(fn func
 			continue
 		}
 		for o := s[0] + 2; o < s[1]; o++ {
-			for v := 0; v < 256; v++ {
+			for v := 0; v < 256; v += step {
 				if int(bases[1].data[o]) == v {
 					continue
 				}
@@ -1206,8 +1224,8 @@ func verifC08Setup(t *testing.T) (decs []verifC08Decoder, enumerate func(fn func
 		}
 		verifC08Block = nil
 	}
-	domain = verifC08J2KDomain(tier, len(bases), "htj2k codecs (lossless, lossless RPCL, lossy q80/q50) Encode: 1x1, 8x8, 17x5, 33x20; 1 and 3 components; 8/16 bit; 0-2 levels", true) +
-		fmt.Sprintf("; plus all 256 values of every byte of the remaining main header segments (CAP, ...) of stream #1; plus the HT code-block domain: %d blocks from HTEncoder (1x1..64x64, Kmax 1/8/16/24) decoded by HTDecoder.Decode/DecodeWithBitplane/DecodeLayered under missingMSBs {0,1,Kmax-1,Kmax,29,30,-1}: every truncation, byte/word substitution, random strings, all 256 one-byte blocks, every 257th two-byte block, every 61st value of the 16-bit Scup locator, mismatching block dimensions and Kmax {0,-1,1,2,30..33,64}", len(blocks))
+	domain = verifC08J2KDomain(tier, len(bases), "htj2k codecs (lossless, lossless RPCL, lossy q80/q50) Encode: 1x1, 8x8, 17x5, 33x20; 1 and 3 components; 8/16 bit; 0-2 levels; quick tier: byte/word substitution only in streams #0,#1,#7", true) +
+		fmt.Sprintf("; plus all 256 values (quick: every 3rd) of every byte of the remaining main header segments (CAP, ...) of stream #1; plus the HT code-block domain: %d blocks from HTEncoder (1x1..64x64, Kmax 1/8/16/24) decoded by HTDecoder.Decode/DecodeWithBitplane/DecodeLayered under missingMSBs {0,1,Kmax-1,Kmax,29,30,-1}: every truncation, byte/word substitution, random strings, all 256 one-byte blocks, every 257th two-byte block, every 61st value of the 16-bit Scup locator, mismatching block dimensions and Kmax {0,-1,1,2,30..33,64}", len(blocks))
 	return verifC08Decoders(), enumerate, domain
 }
 
@@ -1219,7 +1237,7 @@ func TestVerif_C08_htj2k(t *testing.T) {
 
 func TestVerif_C09_htj2k(t *testing.T) {
 	decs, enumerate, domain := verifC08Setup(t)
-	every := 6
+	every := 8
 	if verifC08Tier() == "thorough" {
 		every = 1
 	}
